@@ -83,7 +83,7 @@ def _smap_positions(smap):
 
 def validate(spec: ModelSpec, c: tv.Compiled, tally: decide.Tally, vectorized: bool, twin=True, cvc5=False,
              delayed_factory=None, ext_inputs=None, t_sym=None, extra_state=None, run_symbolic=None,
-             extra_table=None, extra_assumptions=(), label=''):
+             extra_table=None, extra_assumptions=(), label='', plugin=None):
     """Returns dict(violations=[...], inconclusive=[...], diagnostics=[...], obligations=[...])."""
     res = dict(violations=[], inconclusive=[], diagnostics=[], obligations=[])
     syms = Symbols(spec)
@@ -152,7 +152,9 @@ def validate(spec: ModelSpec, c: tv.Compiled, tally: decide.Tally, vectorized: b
         if run_symbolic is not None:
             out, sargs = run_symbolic(c, binding, y_sym)
         else:
-            out, sargs = tv.run_symbolic(c, binding, y_sym=y_sym, t_sym=t_sym)
+            ov = plugin.arg_overrides(c, binding, t_sym) if plugin else {}
+            out, sargs = tv.run_symbolic(c, binding, y_sym=y_sym, t_sym=t_sym, overrides=ov.get('args'),
+                                         hist=ov.get('hist'))
         tv.check_cells(out, 'dy')
     except symx.Unsupported as e:
         res['inconclusive'].append(dict(kind='engine', what=str(e)))
@@ -207,7 +209,18 @@ def validate(spec: ModelSpec, c: tv.Compiled, tally: decide.Tally, vectorized: b
     def EP(i, o, v):
         return syms.EPsym[(i, o, v)]
     delayed = delayed_factory(spec, syms, y_sym, pos, sargs, c) if delayed_factory else None
-    R = refsem.Ref(spec, refsem.SymDom(), P, Y, W, EP, delayed=delayed, ext_inputs=ext_inputs)
+    past = None
+    if plugin:
+        import types
+        ctx = types.SimpleNamespace(spec=spec, c=c, syms=syms, y_sym=y_sym, pos=pos, sargs=sargs, out=out, res=res,
+                                    tally=tally, pc=pc, binding=binding, t_sym=t_sym, vectorized=vectorized,
+                                    delayed=None, past=None, abort=False, P=P, Y=Y, W=W, EP=EP, ny=ny,
+                                    ref_states=ref_states)
+        plugin.after_run(ctx)
+        out, delayed, past, pc = ctx.out, ctx.delayed, ctx.past, ctx.pc
+        if ctx.abort:
+            return res
+    R = refsem.Ref(spec, refsem.SymDom(), P, Y, W, EP, delayed=delayed, ext_inputs=ext_inputs, past=past)
     extra = extra_state or {}
     for sv in ref_states:
         try:
@@ -257,7 +270,7 @@ def validate(spec: ModelSpec, c: tv.Compiled, tally: decide.Tally, vectorized: b
                     from . import findings
                     for ids, opts in findings.tv_defect_candidates(None, spec, vectorized):
                         Rd = refsem.Ref(spec, refsem.SymDom(), P, Y, W, EP, delayed=delayed, ext_inputs=ext_inputs,
-                                        **opts)
+                                        past=past, **opts)
                         try:
                             vd, _ = decide.prove_equal(gen, Rd.deriv(*sv), pc=pc)
                         except Exception:   # noqa
